@@ -196,7 +196,7 @@ def one(ctx, facts, cfg, fname, codec, run_name, feeds, result_iter):
         for (nb, dest) in ns:
             if nb not in reach0:
                 continue
-            flow = core.forward_flow(body, {dest}, through_calls=None)
+            flow = core.forward_flow(body, {dest}, through_calls=lambda c: re.search(r'Try.*::branch$', c.get('path') or c.get('decl') or '') is not None)
             adds = [(b, t) for (b, t, idx) in core.call_uses(body, flow) if (t['callee'].get('path') == add_path)]
             others = [(b, t) for (b, t, idx) in core.call_uses(body, flow)
                       if t['callee'].get('path') != add_path and not ADAPT_RE.search(t['callee'].get('path') or '')
